@@ -2,6 +2,17 @@
 
 package value
 
+import "golang.org/x/text/unicode/norm"
+
+// nfc: strings held by string values are NFC-normalised (as in the VM).
+func nfc(s string) string { return norm.NFC.String(s) }
+
+/*@ func NewValueString
+    serves C04, C13
+    inline
+    ensures @normalised result != nil && (*result).Kind() == StringValueKind && (*result).(ValueString).Inner == nfc(inner)
+@*/
+
 // Specification vocabulary and contracts checked by /verif/hvc (build tag
 // verif only; see /verif/DESIGN.md, C02/C04/C09).
 
@@ -73,7 +84,7 @@ func inBounds(i int64, n int) bool { return 0 <= wrapIndex(i, n) && wrapIndex(i,
     ensures @list-bounds (*base).Kind() == ListValueKind && !inBounds((*index).(ValueInt).Inner, len(*(*base).(ValueList).Values)) ==> ret1 != nil
     ensures @string-bounds (*base).Kind() == StringValueKind && !inBounds((*index).(ValueInt).Inner, len((*base).(ValueString).Inner)) ==> ret1 != nil
     ensures @string-element ret1 == nil && (*base).Kind() == StringValueKind ==> inBounds((*index).(ValueInt).Inner, len((*base).(ValueString).Inner))
-    ensures @string-element-value ret1 == nil && (*base).Kind() == StringValueKind ==> (*ret0).Kind() == StringValueKind && (*ret0).(ValueString).Inner == string((*base).(ValueString).Inner[wrapIndex((*index).(ValueInt).Inner, len((*base).(ValueString).Inner))])
+    ensures @string-element-value ret1 == nil && (*base).Kind() == StringValueKind ==> (*ret0).Kind() == StringValueKind && (*ret0).(ValueString).Inner == nfc(string((*base).(ValueString).Inner[wrapIndex((*index).(ValueInt).Inner, len((*base).(ValueString).Inner))]))
     ensures @result ret1 == nil ==> ret0 != nil
 @*/
 
